@@ -84,7 +84,15 @@ func VHarness_C12_ProposalLedger() {
 	closed := false
 	nops := 4 + vTier()
 	for i := 0; i < nops; i++ {
-		switch vChoose("op", 7) {
+		op := 0
+		if i < 4 {
+			op = vChoose("op", 7)
+		} else {
+			// thorough tier: a fifth operation out of applied / time passes+gc /
+			// release (a full seven-way fifth step is ~2 million paths)
+			op = []int{1, 4, 6}[vChoose("op5", 3)]
+		}
+		switch op {
 		case 0: // propose
 			vAssume(!closed && len(reqs) < 3)
 			cs := &client.Session{ShardID: 1, ClientID: vU64("cid"), SeriesID: vU64("sid")}
